@@ -307,6 +307,7 @@ func loopsBack(b *ssa.BasicBlock) bool {
 
 func runC07(c *Ctx) {
 	ruleEOFOnlyAtEnd(c)
+	ruleDotTable(c)     // the end state is entered by <CRLF>.<CRLF> and by nothing shorter or other: a table that reaches it early reports a clean end-of-file for a message still being sent
 	ruleDotStructure(c) // error exits keep the automaton state: a reader that has failed does not report end-of-file next time
 	rulePipeClose(c)
 	ruleNoPositiveAfterShortCopy(c)
